@@ -22,7 +22,8 @@ func init() {
 			"R3 in Holds and Contains no `return false` is reachable while the receiver is unlimited (every false answer is dominated by !receiver.IsUnlimited()), so the unlimited scope contains everything. " +
 			"R6 the iterator returned by Scope.Iter assigns to no variable of the enclosing call (it can be run again). " +
 			"R7 scope operations never append to a slice belonging to an argument scope. " +
-			"R8 Contains compares the argument's action bits as a subset of the receiver's ((a&b) != b or b&^a != 0), never as an overlap; R9 a scope's actions are read at an index that is also used with the same scope's repositories.",
+			"R8 Contains compares the argument's action bits as a subset of the receiver's ((a&b) != b or b&^a != 0), never as an overlap; R9 a scope's actions are read at an index that is also used with the same scope's repositories. " +
+			"R10 Scope.String joins actions with a comma only under (both repository scopes, same repository); R1c an action name becomes a bit (parseKnownAction) only for a resource scope that passed isKnown(), or the result is tested.",
 		NotDecided: "all algebraic laws over sets of triples (union/containment/membership/equality/length agree with the set model), strict ordering of Iter and the print/parse round trip are value-level and not decided.",
 		Technique:  "static analysis: SSA dominance of sentinel guards, predicate path analysis, return provenance",
 	})
@@ -76,6 +77,8 @@ func runC09(c *core.Ctx) {
 	noAppendToParameterSlice(c, "C09.R7")
 	actionSubsetTest(c, "C09.R8")
 	parallelSlicesIndexedAlike(c, "C09.R9")
+	scopeStringGroupsOnlyRepositories(c, "C09.R10")
+	knownActionOnlyForKnownScopes(c, "C09.R1")
 }
 
 func strConstCmp(cd facts.Cond, fld string, want string) (eq bool, ok bool) {
